@@ -252,16 +252,31 @@ func (c *client) String() string {
 	return fmt.Sprintf("RegionClient{Addr: %s}", c.addr)
 }
 
-func (c *client) inFlightUp() error {
+// inFlightAdd counts a request as awaiting its response. It has to be called
+// before the request is written: the reader goroutine can process the response
+// (and call inFlightDown) before the write call returns.
+func (c *client) inFlightAdd() {
 	c.inFlightM.Lock()
 	c.inFlight++
-	// we expect that at least the last request can be completed within readTimeout
-	if err := c.conn.SetReadDeadline(time.Now().Add(c.readTimeout)); err != nil {
-		c.inFlightM.Unlock()
-		return err
-	}
 	c.inFlightM.Unlock()
-	return nil
+}
+
+// armReadDeadline restarts the read timeout once a request has been written,
+// unless every request sent so far has been answered in the meantime.
+func (c *client) armReadDeadline() error {
+	c.inFlightM.Lock()
+	defer c.inFlightM.Unlock()
+	if c.inFlight == 0 {
+		// nothing to wait for: inFlightDown has cleared the deadline
+		return nil
+	}
+	// we expect that at least the last request can be completed within readTimeout
+	return c.conn.SetReadDeadline(time.Now().Add(c.readTimeout))
+}
+
+func (c *client) inFlightUp() error {
+	c.inFlightAdd()
+	return c.armReadDeadline()
 }
 
 func (c *client) inFlightDown() error {
@@ -647,6 +662,7 @@ func (c *client) send(rpc hrpc.Call) (uint32, error) {
 	}
 
 	rpcSize.WithLabelValues(c.Addr()).Observe(float64(uint32(len(b)) + cellblocksLen))
+	c.inFlightAdd()
 	if cellblocks != nil {
 		bfs := append(net.Buffers{b}, cellblocks...)
 		_, err = bfs.WriteTo(c.conn)
@@ -657,7 +673,7 @@ func (c *client) send(rpc hrpc.Call) (uint32, error) {
 		return id, ServerError{err}
 	}
 
-	if err := c.inFlightUp(); err != nil {
+	if err := c.armReadDeadline(); err != nil {
 		return id, ServerError{err}
 	}
 	return id, nil
